@@ -176,6 +176,10 @@ pub proof fn lemma_sorted_at(s: Seq<Segment>, i: int, j: int)
     requires segs_sorted(s), 0 <= i < j < s.len(),
     ensures s[i].start_offset < s[j].start_offset,
 { reveal(segs_sorted); }
+pub proof fn lemma_sorted_update(s: Seq<Segment>, i: int, x: Segment)
+    requires segs_sorted(s), 0 <= i < s.len(), x.start_offset == s[i].start_offset,
+    ensures segs_sorted(s.update(i, x)),
+{ reveal(segs_sorted); }
 pub proof fn lemma_sorted_unique(s: Seq<Segment>, i: int, j: int)
     requires segs_sorted(s), 0 <= i < s.len(), 0 <= j < s.len(), s[i].start_offset == s[j].start_offset,
     ensures i == j,
